@@ -758,6 +758,9 @@ def execStmt (w : World τ) (a : ActId) (fs : List (Frame τ)) : Stmt τ → Wor
           if w.cfg.debug && (vecSub levels amounts).any (· < 0) then (w.emit a "resrej" [r]).raiseNew a fs (.assertion 4)
           else (w.setLevels rid (vecSub levels amounts)).doPostpone a fs
         | _ => (w.setLevels rid ((levels.zip amounts).map (fun p => if p.2 == -1 then p.1 else p.2))).doPostpone a fs
+  | .resPool order =>
+    -- `ResourceLevels` are specialised with their field names sorted (`_resource_level.py`): iteration follows the names, not the spelling
+    (w.emit a "lvorder" ((List.range order.length).map (fun (i : Nat) => (i : Int)))).retTo a fs .unit
   | .logLevels r =>
     match lookup w.resNames r with
     | none => (w.emit a "unbound" []).retTo a fs .unit
